@@ -282,3 +282,169 @@ theorem worldEntry_rep_indep (j : Job) (p : PathId) (l : Leaf) (hrep : j.rep p =
   simp only [worldEntry, hws, hm]
 
 end Ts.World
+
+/-! ## replicated bytes are written once by the whole job -/
+namespace Ts.World
+open Ts.Storage (Bytes)
+open Ts.Slab Ts.BatchRead Ts.Snapshot
+
+theorem sum_map_add {α : Type} (l : List α) (u v : α → Nat) :
+    (l.map (fun r => u r + v r)).sum = (l.map u).sum + (l.map v).sum := by
+  induction l with
+  | nil => rfl
+  | cons a l ih => simp only [List.map_cons, List.sum_cons, ih]; omega
+
+theorem sum_indicator (W a c : Nat) :
+    ((List.range W).map (fun r => if a = r then c else 0)).sum = if a < W then c else 0 := by
+  induction W with
+  | zero => simp
+  | succ n ih =>
+    rw [List.range_succ, List.map_append, List.sum_append, ih]
+    simp only [List.map_cons, List.map_nil, List.sum_cons, List.sum_nil, Nat.add_zero]
+    by_cases h1 : a < n
+    · have : a ≠ n := by omega
+      have h2 : a < n + 1 := by omega
+      simp [h1, this, h2]
+    · by_cases h3 : a = n
+      · subst h3; simp
+      · have h4 : ¬ a < n + 1 := by omega
+        simp [h1, h3, h4]
+
+/-- splitting a list by an owner function with values below `W` and summing the parts gives the whole sum -/
+theorem sum_partition {α : Type} (l : List α) (g f : α → Nat) (W : Nat) (hg : ∀ x ∈ l, g x < W) :
+    ((List.range W).map (fun r => ((l.filter (fun x => g x == r)).map f).sum)).sum = (l.map f).sum := by
+  induction l with
+  | nil =>
+    simp only [List.filter_nil, List.map_nil, List.sum_nil]
+    rw [List.sum_eq_zero_iff_forall_eq_nat]
+    intro x hx
+    rw [List.mem_map] at hx
+    obtain ⟨_, _, rfl⟩ := hx
+    rfl
+  | cons x l ih =>
+    have hx := hg x (by simp)
+    have hrest := ih (fun y hy => hg y (by simp [hy]))
+    have hfun : (fun r => (((x :: l).filter (fun y => g y == r)).map f).sum)
+        = (fun r => (if g x = r then f x else 0) + ((l.filter (fun y => g y == r)).map f).sum) := by
+      funext r
+      by_cases h : g x = r
+      · simp [List.filter_cons, h]
+      · have : (g x == r) = false := by simpa using h
+        simp [List.filter_cons, h]
+    rw [hfun, sum_map_add, sum_indicator, hrest]
+    simp [hx]
+
+theorem nodup_of_map_nodup {α β : Type} (f : α → β) (l : List α) (h : (l.map f).Nodup) : l.Nodup := by
+  unfold List.Nodup at h ⊢
+  rw [List.pairwise_map] at h
+  exact h.imp (fun hne heq => hne (congrArg f heq))
+
+theorem mem_flat_iff (us : List ((PathId × Leaf) × List (WReq UnitId × Bytes))) (x : WReq UnitId × Bytes) :
+    x ∈ flat us ↔ ∃ e ∈ us, x ∈ e.2 := by
+  unfold flat
+  rw [List.mem_flatten]
+  constructor
+  · rintro ⟨ws, hws, hx⟩
+    rw [List.mem_map] at hws
+    obtain ⟨e, he, rfl⟩ := hws
+    exact ⟨e, he, hx⟩
+  · rintro ⟨e, he, hx⟩
+    exact ⟨e.2, List.mem_map_of_mem (f := fun e : (PathId × Leaf) × List (WReq UnitId × Bytes) => e.2) he, hx⟩
+
+/-- the replicated share of what rank `r` keeps, as a multiset: the replicated units the partition gave it -/
+theorem kept_rep_perm (j : Job) (r : Nat) (all : List (WReq UnitId × Bytes)) :
+    ((kept j r all).filter (fun x => j.rep x.1.path.1)).Perm
+      ((all.filter (fun x => j.rep x.1.path.1)).filter (fun x => j.owner x.1.path == r)) := by
+  unfold kept repKept privKept
+  rw [List.filter_append]
+  have h2 : (all.filter (fun x => !j.rep x.1.path.1)).filter (fun x => j.rep x.1.path.1) = [] := by
+    rw [List.filter_filter, List.filter_eq_nil_iff]
+    intro a _
+    cases j.rep a.1.path.1 <;> simp
+  rw [h2, List.append_nil]
+  have h1 := (List.mergeSort_perm (all.filter (fun x => j.rep x.1.path.1 && j.owner x.1.path == r))
+    (fun a b => decide (a.1.path.1 ≤ b.1.path.1))).filter (fun x => j.rep x.1.path.1)
+  refine h1.trans ?_
+  rw [List.filter_filter, List.filter_filter]
+  apply List.Perm.of_eq
+  apply List.filter_congr
+  intro a _
+  cases j.rep a.1.path.1 <;> cases (j.owner a.1.path == r) <;> rfl
+
+/-- every rank prepares the same replicated units (as a set) -/
+theorem rep_units_same (j : Job) (wf : j.WF) (r : Nat) (st st0 : RankState)
+    (hr : j.states[r]? = some st) (h0 : j.states[0]? = some st0)
+    (us us0 : List ((PathId × Leaf) × List (WReq UnitId × Bytes)))
+    (hus : rankUnits j.cfg st = .ok us) (hus0 : rankUnits j.cfg st0 = .ok us0) :
+    ((flat us).filter (fun x => j.rep x.1.path.1)).Perm ((flat us0).filter (fun x => j.rep x.1.path.1)) := by
+  have hst : st ∈ j.states := List.mem_of_getElem? hr
+  have hst0 : st0 ∈ j.states := List.mem_of_getElem? h0
+  obtain ⟨us', hus', hmap, hlw, _, hnd, _⟩ := rankUnits_spec j.cfg wf.chunk st (wf.leaves st hst) (wf.paths st hst)
+  rw [hus] at hus'; cases hus'
+  obtain ⟨us0', hus0', hmap0, hlw0, _, hnd0, _⟩ := rankUnits_spec j.cfg wf.chunk st0 (wf.leaves st0 hst0) (wf.paths st0 hst0)
+  rw [hus0] at hus0'; cases hus0'
+  -- one direction of the membership, for any two ranks
+  have key : ∀ (sa sb : RankState) (ua ub : List ((PathId × Leaf) × List (WReq UnitId × Bytes))),
+      sa ∈ j.states → sb ∈ j.states → ua.map (·.1) = sa → ub.map (·.1) = sb →
+      (∀ e ∈ ua, leafWrites j.cfg e.1.1 e.1.2 = .ok e.2) → (∀ e ∈ ub, leafWrites j.cfg e.1.1 e.1.2 = .ok e.2) →
+      ∀ x, x ∈ flat ua → j.rep x.1.path.1 = true → x ∈ flat ub := by
+    intro sa sb ua ub hsa hsb hma hmb hla hlb x hx hrep
+    rw [mem_flat_iff] at hx
+    obtain ⟨e, he, hxe⟩ := hx
+    have hpl : e.1 ∈ sa := by rw [← hma]; exact List.mem_map_of_mem (f := fun e : (PathId × Leaf) × List (WReq UnitId × Bytes) => e.1) he
+    have hle := hla e he
+    obtain ⟨ws', hws', hidx, _, _⟩ := leafWrites_facts j.cfg wf.chunk e.1.1 e.1.2 (wf.leaves sa hsa e.1 hpl)
+    rw [hle] at hws'; cases hws'
+    have hp : x.1.path.1 = e.1.1 := hidx x hxe
+    rw [hp] at hrep
+    obtain ⟨l', hl'⟩ := wf.repAll e.1.1 hrep sb hsb
+    have hsame := wf.repSame e.1.1 hrep sa hsa sb hsb e.1.2 l' hpl hl'
+    have hmem := mem_units_of_mem_state j.cfg sb ub hmb hlb e.1.1 l' hl' e.2 (by rw [← hsame]; exact hle)
+    exact units_mem_flat ub e.1.1 l' e.2 hmem x hxe
+  have nd1 : ((flat us).filter (fun x => j.rep x.1.path.1)).Nodup :=
+    (nodup_of_map_nodup _ _ hnd).sublist List.filter_sublist
+  have nd2 : ((flat us0).filter (fun x => j.rep x.1.path.1)).Nodup :=
+    (nodup_of_map_nodup _ _ hnd0).sublist List.filter_sublist
+  rw [List.perm_ext_iff_of_nodup nd1 nd2]
+  intro x
+  simp only [List.mem_filter]
+  constructor
+  · rintro ⟨hx, hrep⟩
+    exact ⟨key st st0 us us0 hst hst0 hmap hmap0 hlw hlw0 x hx hrep, hrep⟩
+  · rintro ⟨hx, hrep⟩
+    exact ⟨key st0 st us0 us hst0 hst hmap0 hmap hlw0 hlw x hx hrep, hrep⟩
+
+/-- replicated payload bytes written by rank `r` -/
+def repBytesOfRank (j : Job) (r : Nat) : Nat :=
+  match keptOf j r with
+  | .ok k => ((k.filter (fun x => j.rep x.1.path.1)).map (fun x => x.2.length)).sum
+  | .error _ => 0
+
+/-- **Replicated bytes are written once.** Summed over all ranks of a well-formed job, the replicated payload bytes
+written equal the bytes of one copy of the replicated units (those of rank 0's state) — not world-size times it —
+whatever the partition. -/
+theorem world_replicated_bytes_once (j : Job) (wf : j.WF) (st0 : RankState) (h0 : j.states[0]? = some st0)
+    (us0 : List ((PathId × Leaf) × List (WReq UnitId × Bytes))) (hus0 : rankUnits j.cfg st0 = .ok us0) :
+    ((List.range j.states.length).map (repBytesOfRank j)).sum
+      = (((flat us0).filter (fun x => j.rep x.1.path.1)).map (fun x => x.2.length)).sum := by
+  have hper : ∀ r ∈ List.range j.states.length, repBytesOfRank j r
+      = ((((flat us0).filter (fun x => j.rep x.1.path.1)).filter (fun x => j.owner x.1.path == r)).map (fun x => x.2.length)).sum := by
+    intro r hr
+    rw [List.mem_range] at hr
+    have hst : j.states[r]? = some j.states[r] := by simp [hr]
+    obtain ⟨us, hus, hk, _, _, _, _⟩ := keptOf_spec j wf.chunk wf.leaves wf.paths r _ hst
+    unfold repBytesOfRank
+    rw [hk]
+    simp only
+    apply List.Perm.sum_nat
+    apply List.Perm.map
+    refine (kept_rep_perm j r (flat us)).trans ?_
+    exact (rep_units_same j wf r _ st0 hst h0 us us0 hus hus0).filter _
+  have hmap : (List.range j.states.length).map (repBytesOfRank j)
+      = (List.range j.states.length).map (fun r =>
+          ((((flat us0).filter (fun x => j.rep x.1.path.1)).filter (fun x => j.owner x.1.path == r)).map (fun x => x.2.length)).sum) :=
+    List.map_congr_left hper
+  rw [hmap]
+  exact sum_partition _ (fun x : WReq UnitId × Bytes => j.owner x.1.path) (fun x : WReq UnitId × Bytes => x.2.length) _ (fun x _ => wf.owner x.1.path)
+
+end Ts.World
